@@ -232,20 +232,28 @@ func c08b(c *Ctx) {
 			}
 			c.Check(okName, "binding/"+kind+"/inline-name", pos, "the entry refers to the label of the script node built for it", "the name stored in the "+kind+" entry ("+pretty(f["Name"])+") is not the name of its inline script node: the table would reference an undefined label")
 			c.Check(okBody, "binding/"+kind+"/inline-body", pos, "the inline body is the block parsed under that script name", "the inline script's body is not the block parsed with the entry's script name")
-			want := `fmt.Sprintf("%s_%s",`
+			want := "%s_%s"
 			if kind == "table-entry" {
-				want = `fmt.Sprintf("%s_%s_%d",`
+				want = "%s_%s_%d"
 			}
-			c.Check(strings.HasPrefix(f["Name"], want), "binding/"+kind+"/name-format", pos, "generated name format", "generated "+kind+" script name is "+pretty(f["Name"]))
+			got := ""
+			if nv := fieldValue(a, "Name", usePt); nv != nil {
+				got, _, _ = flatTemplate(nv, 0)
+			}
+			c.Check(got == want, "binding/"+kind+"/name-format", pos, "generated name format", "generated "+kind+" script name is "+pretty(f["Name"])+" (template "+q(got)+", expected "+q(want)+")")
 		case typeIs(a.Type(), "ast", "TableMapScript"):
-			c.Check(strings.HasPrefix(f["Name"], `fmt.Sprintf("%s_%s",`) && strings.HasPrefix(f["Entries"], "phi("), "binding/table/name-and-entries", pos, "table name = <mapscripts>_<type>; entries = the list built for it", "TableMapScript built with Name="+pretty(f["Name"])+" Entries="+pretty(f["Entries"]))
+			got := ""
+			if nv := fieldValue(a, "Name", usePt); nv != nil {
+				got, _, _ = flatTemplate(nv, 0)
+			}
+			c.Check(got == "%s_%s" && strings.HasPrefix(f["Entries"], "phi("), "binding/table/name-and-entries", pos, "table name = <mapscripts>_<type>; entries = the list built for it", "TableMapScript built with Name="+pretty(f["Name"])+" Entries="+pretty(f["Entries"]))
 		}
 	})
 	c.Check(nInline == 2, "binding/inline-sites", c.W.FuncPos(fn), "two inline-script sites (plain, table entry)", fmt.Sprintf("found %d inline entry sites, expected 2", nInline))
 	// the %d of entry names: a counter phi incremented once per iteration of the entry loop
 	okCounter := false
 	for _, ci := range callsNamed(fn, "fmt.Sprintf") {
-		f, ops, ok := sprintfOf(ci.(ssa.Value))
+		f, ops, ok := flatTemplate(ci.(ssa.Value), 0)
 		if !ok || f != "%s_%s_%d" || len(ops) != 3 {
 			continue
 		}
